@@ -96,3 +96,37 @@ func (x *Bool) Load() bool          { y(); return x.v.Load() }
 func (x *Bool) Store(val bool)      { y(); x.v.Store(val) }
 func (x *Bool) Swap(n bool) bool    { y(); return x.v.Swap(n) }
 func (x *Bool) CompareAndSwap(o, n bool) bool { y(); return x.v.CompareAndSwap(o, n) }
+
+// Pointer mirrors atomic.Pointer[T].
+type Pointer[T any] struct{ v atomic.Pointer[T] }
+
+func (x *Pointer[T]) Load() *T                      { y(); return x.v.Load() }
+func (x *Pointer[T]) Store(val *T)                  { y(); x.v.Store(val) }
+func (x *Pointer[T]) Swap(n *T) *T                  { y(); return x.v.Swap(n) }
+func (x *Pointer[T]) CompareAndSwap(o, n *T) bool   { y(); return x.v.CompareAndSwap(o, n) }
+
+// Uintptr mirrors atomic.Uintptr.
+type Uintptr struct{ v atomic.Uintptr }
+
+func (x *Uintptr) Load() uintptr                    { y(); return x.v.Load() }
+func (x *Uintptr) Store(val uintptr)                { y(); x.v.Store(val) }
+func (x *Uintptr) Add(d uintptr) uintptr            { y(); return x.v.Add(d) }
+func (x *Uintptr) Swap(n uintptr) uintptr           { y(); return x.v.Swap(n) }
+func (x *Uintptr) CompareAndSwap(o, n uintptr) bool { y(); return x.v.CompareAndSwap(o, n) }
+
+func AddUintptr(addr *uintptr, delta uintptr) uintptr { y(); return atomic.AddUintptr(addr, delta) }
+func LoadUintptr(addr *uintptr) uintptr               { y(); return atomic.LoadUintptr(addr) }
+func StoreUintptr(addr *uintptr, val uintptr)         { y(); atomic.StoreUintptr(addr, val) }
+func SwapUintptr(addr *uintptr, new uintptr) uintptr  { y(); return atomic.SwapUintptr(addr, new) }
+func CompareAndSwapUintptr(addr *uintptr, old, new uintptr) bool {
+	y()
+	return atomic.CompareAndSwapUintptr(addr, old, new)
+}
+func SwapPointer(addr *unsafe.Pointer, new unsafe.Pointer) unsafe.Pointer {
+	y()
+	return atomic.SwapPointer(addr, new)
+}
+func CompareAndSwapPointer(addr *unsafe.Pointer, old, new unsafe.Pointer) bool {
+	y()
+	return atomic.CompareAndSwapPointer(addr, old, new)
+}
